@@ -458,6 +458,14 @@ pub fn run_inprocess(ops: &[Op]) -> Result<Outcome, Violation> {
                         if !range_inside(&text, &r) {
                             return Err(Violation { sig: "range-outside:Formatting".into(), what: format!("step {step}: formatting range {r:?} outside the document"), replay: hist() });
                         }
+                        // applying the edit must leave exactly format(text)
+                        let (a, b) = (position_to_offset(&text, r.start.line, r.start.character), position_to_offset(&text, r.end.line, r.end.character));
+                        if a <= b && b <= text.len() && text.is_char_boundary(a) && text.is_char_boundary(b) {
+                            let applied = format!("{}{}{}", &text[..a], want, &text[b..]);
+                            if applied != want {
+                                return Err(Violation { sig: "formatting-edit-range".into(), what: format!("step {step}: applying the formatting edit (range {r:?}) does not give format(text): {} bytes of the old text survive", a + (text.len() - b)), replay: hist() });
+                            }
+                        }
                     }
                 }
             }
